@@ -2,7 +2,9 @@ import LcmProofs.Laws
 import LcmProofs.FiniteHorizon
 import LcmProofs.AffineInstance
 import LcmProofs.StationarySolve
+import LcmProofs.BetaZero
 import LcmProps.Examples
+import LcmModel.Diag
 namespace Lcm
 
 /-! # C11 — the solution obeys the algebraic laws of finite-horizon dynamic programming
@@ -175,5 +177,24 @@ theorem C11_stationary_solve (m : Model) (h : NoPeriod m) (P : Params) (T' : Nat
 #guard Ex.consModel.functions.all fun f => !f.args.contains "_period"
 #guard (((solve (withHorizon Ex.consModel 5) Ex.consParams).drop 2).map (·.toFlat))
   == ((solve Ex.consModel Ex.consParams).map (·.toFlat))
+
+
+/-! ## `beta = 0` for the executable `solve` itself -/
+
+/-- with `beta = 0` the array of every period is the array of the one-period problem of that period (`solvePeriod`
+without continuation), provided the continuation value is *defined* wherever the static objective is
+(`ContinuationDefined`: transitions stay inside the stored state space and read no `-inf` entry - the supported class;
+with `beta = 0` the number itself is irrelevant) -/
+theorem C11_beta_zero_solve (m : Model) (P : Params) (hβ : P.beta = 0) (t : Nat) (ht : t < m.nPeriods)
+    (hdef : ContinuationDefined m P t) :
+    (solve m P true).getD t default = solvePeriod m P (groups m) t (mkSpace m P (groups m) t) none :=
+  solve_beta_zero hβ t ht hdef
+
+-- non-vacuity: the consumption example with beta = 0; every period equals its one-period problem
+def Ex.consParams0 : Params := { Ex.consParams with beta := 0 }
+#guard (List.range 3).all fun t =>
+  (((solve Ex.consModel Ex.consParams0).getD t default).toFlat
+    == (solvePeriod Ex.consModel Ex.consParams0 (groups Ex.consModel) t (mkSpace Ex.consModel Ex.consParams0 (groups Ex.consModel) t) none).toFlat)
+#guard solveDiag Ex.consModel Ex.consParams0 == [0, 0, 0]   -- no feasible state-choice pair has an undefined objective
 
 end Lcm
